@@ -344,7 +344,7 @@ func (s *echoServer) OnTraffic(c gnet.Conn) gnet.Action {
 			return gnet.Close
 		}
 		var frame []byte
-		switch atomic.AddInt32(&s.mode, 1) % 3 {
+		switch atomic.AddInt32(&s.mode, 1) % 4 {
 		case 0:
 			buf, err := c.Peek(4 + n)
 			if err != nil {
@@ -352,6 +352,23 @@ func (s *echoServer) OnTraffic(c gnet.Conn) gnet.Action {
 			}
 			frame = append([]byte(nil), buf...)
 			_, _ = c.Discard(4 + n)
+		case 3:
+			// the same frame consumed by several partial Discards after one Peek (the Peek that spans the
+			// leftover ring and the fresh read buffer keeps a pooled scratch slice until it is discarded)
+			buf, err := c.Peek(4 + n)
+			if err != nil {
+				return gnet.None
+			}
+			frame = append([]byte(nil), buf...)
+			_, _ = c.Discard(2)
+			_, _ = c.Discard(1)
+			_, _ = c.Discard(1)
+			if n > 1 {
+				_, _ = c.Discard(n - 1)
+				_, _ = c.Discard(1)
+			} else {
+				_, _ = c.Discard(n)
+			}
 		case 1:
 			if c.InboundBuffered() < 4+n {
 				return gnet.None
